@@ -488,6 +488,18 @@ def check_entities(ctx):
                       "`&%s..;` decoded with radix %s from byte offset %s under the guard len > %s (expected radix %d, offset %d, guard len > %d so that one-digit references decode)" % (prefix, r, s, g, wr, ws, ws + 1)))
     oks = scalars.get("#x") is True and scalars.get("#") is True
     obs.append(ob("C12.entity/scalar", oks, where, "both numeric forms go through char::from_u32 (surrogates and out-of-range values rejected): %s" % scalars))
+    # the digits are read into an integer type that holds every Unicode scalar value (21 bits)
+    narrow = []
+    nconv = 0
+    for g in [h for h in tc.fns if h.body and "entities" in h.module]:
+        for n in sir.walk(g.body, into_closures=True):
+            if n.get("k") == "call" and (sir.call_path(n) or "").endswith("from_str_radix"):
+                nconv += 1
+                ty = (sir.call_path(n) or "").split("::")[-2] if "::" in (sir.call_path(n) or "") else "?"
+                if ty not in ("u32", "u64", "u128", "usize", "i32", "i64", "i128", "isize"):
+                    narrow.append(ty)
+    obs.append(ob("C12.entity/width", bool(nconv) and not narrow, where, "numeric references are converted in %d places, all into 32 bits or more" % nconv if not narrow else "a numeric reference is read into `%s`: code points above its range do not decode" % narrow[0],
+                  witness=None if not narrow else "&#x1F600; is not decoded and reported as an illegal entity"))
     # named references are case-sensitive (`&Auml;` and `&auml;` are different characters): the name is looked up, and the table
     # is filled, with the text as it stands
     folds = []
